@@ -48,6 +48,7 @@
 #include <sys/un.h>
 #include <sys/uio.h>
 #include <sys/stat.h>
+#include <sys/ioctl.h>
 #include <qb/qbdefs.h>
 #include <qb/qbloop.h>
 #include <qb/qbipcs.h>
@@ -529,7 +530,10 @@ static void print_cut(void)
 	}
 	if (d && d->p) {
 		ssize_t q = d->p->service->funcs.q_len_get ? d->p->service->funcs.q_len_get(&d->p->request) : -1;
-		printf("cut conn state=%d refcount=%d reqq=%ld created=%d\n", (int)d->p->state, (int)d->p->refcount, (long)q, d->created);
+		int unread = 0;
+		if (d->p->setup.u.us.sock > 0) ioctl(d->p->setup.u.us.sock, FIONREAD, &unread);
+		printf("cut conn state=%d refcount=%d reqq=%ld created=%d notify=%d\n", (int)d->p->state, (int)d->p->refcount, (long)q,
+		       d->created, is_shm ? unread : 0);
 	} else if (d) {
 		printf("cut gone closed=%d destroyed=%d\n", d->closed, d->destroyed);
 	} else if (auth) {
@@ -579,6 +583,7 @@ static void report_after_death(int fd0, int ent0, int ref0, qb_ipcc_connection_t
 	struct qb_ipcs_stats sst;
 	qb_ipcc_connection_t *pr;
 	int nd = 0;
+	expect_raw = 0;
 	for (i = 0; i < nlab; i++) if (L[i].label == 'D') { d = &L[i]; nd++; }
 	if (d) printf("dying conns=%d accept=%d created=%d msgs=%d closed=%d destroyed=%d closed_before_destroyed=%d\n", nd,
 		      d->accept, d->created, d->msgs, d->closed, d->destroyed, d->closed_before_destroyed);
